@@ -29,7 +29,7 @@ func TestC06(t *testing.T) {
 			// dies, and whenever entities are put under a target after some table was retired
 			OwnedIf: func(s *core.Sim, f *core.Finding) bool {
 				switch f.Cat {
-				case core.CatRelation, core.CatComponents, core.CatHandles, core.CatScan, core.CatInvIndex:
+				case core.CatRelation, core.CatComponents, core.CatHandles, core.CatScan, core.CatInvIndex, core.CatObserve:
 				default:
 					return false
 				}
